@@ -117,6 +117,30 @@ def _run_job(job):
     except Exception as e:
         return {'obs': [ob('%s%r' % (fn.__name__, args), 'broken', detail='exception: ' + traceback.format_exc()[-1500:])], 'wall': time.time() - t0, 'rss_kb': 0, 'job': fn.__name__}
 
+def _job_child(job, conn):
+    try: conn.send(_run_job(job))
+    finally: conn.close()
+
+def run_jobs(jobs, workers, cap_s):
+    """every job in its own forked process: a job that dies (signal, interpreter crash) or exceeds the wall-time cap is reported as such instead of stalling the run"""
+    from multiprocessing.connection import wait
+    mp = multiprocessing.get_context('fork'); results = [None] * len(jobs); pending = list(range(len(jobs))); running = {}
+    def name(i): return jobs[i][0].__name__ + repr(jobs[i][1])[:80]
+    while pending or running:
+        while pending and len(running) < workers:
+            i = pending.pop(0); r, w = mp.Pipe(False); p = mp.Process(target=_job_child, args=(jobs[i], w)); p.start(); w.close(); running[i] = (p, r, time.time())
+        ready = wait([v[1] for v in running.values()], timeout=2.0)
+        for i, (p, r, t0) in list(running.items()):
+            if r in ready:
+                try: results[i] = r.recv()
+                except (EOFError, OSError):
+                    p.join(5); results[i] = {'obs': [ob(name(i), 'broken', detail='the job process died without a result (exit code %s)' % p.exitcode)], 'wall': time.time() - t0, 'rss_kb': 0, 'job': name(i)}
+                p.join(5); r.close(); del running[i]
+            elif time.time() - t0 > cap_s:
+                p.kill(); p.join(5); r.close(); del running[i]
+                results[i] = {'obs': [ob(name(i), 'undecided', detail='job exceeded the wall-time cap of %d s' % cap_s)], 'wall': time.time() - t0, 'rss_kb': 0, 'job': name(i)}
+    return results
+
 class Ctx:
     def __init__(s, pid, tier):
         s.pid = pid; s.tier = tier; s.t0 = time.time(); s.mods = {}; s.lower_info = []; s.functions = {}; s.assumptions = []; s.bounds = {}
@@ -164,8 +188,7 @@ def main(argv):
     if a.only: jobs = [j for j in jobs if a.only in (j[0].__name__ + repr(j[1]))]
     t1 = time.time()
     if ctx.workers > 1 and len(jobs) > 1:
-        with multiprocessing.get_context('fork').Pool(min(ctx.workers, len(jobs))) as pool:
-            results = pool.map(_run_job, jobs, chunksize=1)
+        results = run_jobs(jobs, min(ctx.workers, len(jobs)), int(os.environ.get('VERIF_JOB_CAP_S', '1500' if tier == 'quick' else '7200')))
     else:
         results = [_run_job(j) for j in jobs]
     obs = []; jobstats = []
